@@ -18,6 +18,7 @@ import warnings
 import torch
 
 from ..extract import c12_cache
+from ..extract import c12_settings
 
 F64 = torch.float64
 BIG = 800
@@ -319,6 +320,12 @@ def catalogue(rng, tier):
     add("Identity[n=4]", lambda: O.IdentityLinearOperator(4, dtype=F64), "diag", tags=("degenerate",))
     M1 = rand_pd(rng, 4, lo=1.0, hi=2.0)
     add("Matmul(Dense,Dense)[n=4]", lambda a=M1: O.MatmulLinearOperator(O.DenseLinearOperator(a.clone()), O.DenseLinearOperator(a.clone())), "matmul")
+    # n-ary Kronecker product with factors of two different modelled classes (a Sum factor memoises its `to_dense`, so the
+    # factor-wise `_symeig` leaves a key on it): exercised by the settings-flip family and the exact wrapper correspondence only
+    Kf1, Kf2a, Kf2b, Kf3 = rand_pd(rng, 2, lo=1.0, hi=1.4), rand_pd(rng, 2, lo=0.5, hi=0.7), rand_pd(rng, 2, lo=0.5, hi=0.7), rand_pd(rng, 3, lo=1.0, hi=1.8)
+    add("Kronecker[2x2x3|Dense,Sum,Dense]", lambda a=Kf1, b=Kf2a, c=Kf2b, d=Kf3: O.KroneckerProductLinearOperator(
+        O.DenseLinearOperator(a.clone()), O.SumLinearOperator(O.DenseLinearOperator(b.clone()), O.DenseLinearOperator(c.clone())),
+        O.DenseLinearOperator(d.clone())), "kron", tags=("fliponly",))
     if tier == "thorough":
         A9 = rand_pd(rng, 9)
         add("Dense[n=9]", lambda A=A9: O.DenseLinearOperator(A.clone()), "base")
@@ -733,11 +740,27 @@ def wrapper_profile(op):
     import linear_operator.operators as O
     t = type(op)
     kind = {O.BatchRepeatLinearOperator: "batchRepeat", O.BlockDiagLinearOperator: "block", O.BlockInterleavedLinearOperator: "blockInterleaved",
-            O.ConstantMulLinearOperator: "constMul"}.get(t)
+            O.ConstantMulLinearOperator: "constMul", O.KroneckerProductLinearOperator: "kron"}.get(t)
+    subs = [a for a in op._args if isinstance(a, O.LinearOperator)]
+    if t is O.AddedDiagLinearOperator:
+        # `_linear_op` (a modelled single-object class) + `_diag_tensor` (Diag: general branch, ConstantDiag: constant-diagonal branch)
+        if len(subs) != 2 or model_profile(subs[0]) not in ("base", "sum") or subs[0] is not op._linear_op:
+            return None
+        if type(subs[1]) is O.ConstantDiagLinearOperator:
+            return "addedDiagConst", [(model_profile(subs[0]), subs[0].shape[-1]), ("diag", subs[1].shape[-1])]
+        if type(subs[1]) is O.DiagLinearOperator:
+            return "addedDiag", [(model_profile(subs[0]), subs[0].shape[-1]), ("diag", subs[1].shape[-1])]
+        return None
     if kind is None:
         return None
-    subs = [a for a in op._args if isinstance(a, O.LinearOperator)]
-    if len(subs) != 1 or model_profile(subs[0]) not in ("base", "sum"):
+    if kind == "kron":
+        # n-ary: every factor must be a modelled single-object class (extension session 5)
+        if len(subs) < 2 or len(subs) != len(op._args) or any(model_profile(x) not in ("base", "sum") for x in subs):
+            return None
+        return kind, [(model_profile(x), x.shape[-1]) for x in subs]
+    # BatchRepeat(Chol(lower)): the sub-profile `chol` is a keys-only profile, which is all the wrapper correspondence compares
+    ok_sub = ("base", "sum", "chol") if kind == "batchRepeat" else ("base", "sum")
+    if len(subs) != 1 or model_profile(subs[0]) not in ok_sub:
         return None
     if kind == "constMul" and not bool(torch.all(op._constant >= 0)):
         return None
@@ -1004,6 +1027,54 @@ def pre_templates(spec, rng, tier, ci=0):
 
 # ----------------------------------------------------------------------------------------------- engine
 
+FLIP_QUERY = {"root_decomposition": "root", "root_inv_decomposition": "rootinv", "diagonalization": "diagz"}
+
+
+def flip_templates(spec, setting_rows, tier):
+    """Settings-flip family (extension session 5), derived from the translator's enumeration of memoised methods whose computation
+    reads a setting (`harness/extract/c12_settings.py`): for every such method that is the EFFECTIVE implementation on this object
+    (first class in the MRO that defines it) and every setting it reads that selects a code path (`max_cholesky_size`,
+    `fast_computations.covar_root_decomposition`), the same call is made on the same object under the two values of the setting,
+    in both orders, followed by the other calling conventions and the readers of the entry, and once more under the first settings."""
+    if spec.profile in ("tri", "interp", "kernel", "sumkron") or not spec.pd or "degenerate" in spec.tags:
+        return []       # sumkron: the mixed-settings pairing defect (D30 family / D32) is open and has its own cells
+    with warnings.catch_warnings():
+        warnings.simplefilter("ignore")
+        op = spec.make()
+    Q = lambda *q: ("q", tuple(q))  # noqa: E731
+    n = spec.truth.shape[-1]
+    SMALL = dict(Env.DEFAULT, mcs=1)
+    EDGE = dict(Env.DEFAULT, mcs=n - 1)
+    NOFRD = dict(Env.DEFAULT, mcs=1, frd=False)
+    out = []
+    for r in setting_rows:
+        kind = FLIP_QUERY.get(r["fn"])
+        if kind is None:
+            continue
+        owner = next((k.__name__ for k in type(op).__mro__ if r["fn"] in vars(k)), None)
+        if owner != r["cls"]:
+            continue
+        chains = set(r["direct"]) | {v.split(":", 1)[1] for v in r["via"]}
+        pairs = []
+        if "max_cholesky_size" in chains:
+            pairs += [(DF, SMALL), (SMALL, DF)] + ([(EDGE, DF)] if tier == "thorough" else [])
+        if "fast_computations.covar_root_decomposition" in chains:
+            pairs += [(SMALL, NOFRD)] + ([(NOFRD, SMALL)] if tier == "thorough" else [])
+        forms = [("none", None), ("kw", None)] + ([("pos", None)] if kind != "rootinv" else [])
+        readers = {"root": [Q("sample"), Q("iql"), Q("rootinv", "kw", "pinverse")], "rootinv": [Q("root", "none", None), Q("solve"), Q("logdet")],
+                   "diagz": [Q("logdet"), Q("root", "kw", "diagonalization"), Q("eigh")]}[kind]
+        for a, b in pairs:
+            for how, m in forms[:2 if tier == "quick" else 3]:
+                h = [(a, Q(kind, how, m)), (b, Q(kind, how, m))]
+                h += [(b, Q(kind, h2, m2)) for h2, m2 in forms if (h2, m2) != (how, m)]
+                h += [(b, q_) for q_ in readers]
+                h += [(a, Q(kind, how, m)), (a, Q("cholesky", False))]
+                if spec.nsub:
+                    h += [(b, ("qs", (kind, "none", None), spec.nsub - 1)), (a, Q(kind, how, m))]
+                out.append(h)
+    return out
+
+
 def hist_json(hist):
     return [[st, list(step[:1]) + [list(x) if isinstance(x, tuple) else x for x in step[1:]]] for st, step in hist]
 
@@ -1149,8 +1220,12 @@ class Runner:
                                     "lineage": fr["lineage"] + f">sub{sidx}", "tainted": fr["tainted"]}
                 if fr[skey] is None:
                     continue
-                if sidx != 0:
-                    wmod = False
+                if sidx != 0 and wmod:
+                    # the wrapper model addresses sub-operators by their position among the operator arguments
+                    import linear_operator.operators as _O
+                    _lops = [a for a in fr["op"]._args if isinstance(a, _O.LinearOperator)]
+                    if not (wprof is not None and wprof[0] in ("kron", "addedDiag") and sidx < len(_lops) and _lops[sidx] is fr[skey]["op"]):
+                        wmod = False
                 if len(stack) > 1:
                     modelled = False    # the handle may be the parent object itself: its cache changes behind the single-object model
                 wtop = fr
@@ -1236,7 +1311,12 @@ class Runner:
                     wmod = False
                 if wmod and len(stack) == 1:
                     # wrapper model: key sets of the wrapper AND of its sub-operators after a query on either handle
-                    wl.append(wq_line(q, st, n, "sub0" if is_sub else "self"))
+                    if q[0] == "precond" and not is_sub and wprof[0].startswith("addedDiag") and obs.get("sig") != "None":
+                        # observer effect of the harness, modelled exactly: the returned preconditioner operator
+                        # `PsdSum(Root(piv_chol), self._diag_tensor)` SHARES the diagonal part with the wrapper and the harness densifies it
+                        wl.append(wq_line(("to_dense",), st, n, "sub1"))
+                    else:
+                        wl.append(wq_line(q, st, n, f"sub{sidx}" if is_sub else "self"))
                     we.append(wkeys(wtop["op"] if is_sub else op))
                 if not fr["tainted"]:
                     for b in a_f:
@@ -1418,8 +1498,12 @@ def shrink(runner, spec, hist, cell, ns=""):
     return hist
 
 
+NS_OF = {"pre": "pre:", "flip": "flip:"}
+
+
 def run(chk):
     table = c12_cache.generate()
+    setting_rows = c12_settings.generate()
     chk.rule = ("per operator class of the catalogue: template histories covering every cache write-site -> read-site pair, all-default-settings "
                 "`pre:` histories (one factorization pre-computed on the object or on one of its sub-operator handles, then either a derivation — "
                 "indexing with leading / non-leading / stepped / non-square blocks always, the other derivations as a rotating subset, all of them on "
@@ -1435,7 +1519,7 @@ def run(chk):
                         "Lanczos / pivoted-Cholesky / CG answers are compared up to the tolerance of the method (5e-4 / 5e-3 / 2e-3 relative)",
                         "stochastic log-determinants (SLQ) are only sanity-banded",
                         "matrices are SPD with condition number <= ~4 and distinct eigenvalues"]
-    chk.prove("LinOp.Properties.C12", ["LinOp/C12", "LinOp/Generated/C12Table.lean", "LinOp/Core/Parse.lean", "LinOp/Core/Basic.lean"])
+    chk.prove("LinOp.Properties.C12", ["LinOp/C12", "LinOp/Generated/C12Table.lean", "LinOp/Generated/C12Settings.lean", "LinOp/Core/Parse.lean", "LinOp/Core/Basic.lean"])
     c12_cache.crosscheck(chk, table)
     torch.set_default_dtype(torch.float32)
     env = Env()
@@ -1447,6 +1531,13 @@ def run(chk):
     for spec in specs:
         ex = runner.survey(spec)
         chk.count("excluded-queries(invalid on a fresh object)", len(ex))
+        for t in flip_templates(spec, setting_rows, chk.tier):
+            t = [(st, step) for st, step in t if not (step[0] in ("q", "qs") and step[1] in ex)]
+            hists.append((spec, t, "flip"))
+        if "fliponly" in spec.tags:
+            for _ in range(nrand):
+                hists.append((spec, gen_history(chk.rng, spec, chk.rng.randint(3, maxlen), with_derive=False, excluded=ex), "flip"))
+            continue
         for t in templates(spec):
             t = [(st, step) for st, step in t if not (step[0] == "q" and step[1] in ex)]
             hists.append((spec, t, "template"))
@@ -1469,7 +1560,7 @@ def run(chk):
         chk.count("class:" + spec.cls)
         chk.count("steps", len(hist))
         try:
-            fails = runner.run_history(spec, hist, hid, ns=("pre:" if kind == "pre" else ""))
+            fails = runner.run_history(spec, hist, hid, ns=NS_OF.get(kind, ""))
         except Exception as e:
             import traceback
             fails = [(f"C12/{spec.cls}/harness-exception", f"{type(e).__name__}: {e} {traceback.format_exc()[-400:]}")]
@@ -1481,7 +1572,7 @@ def run(chk):
             if chk.known(cell) is not None:
                 chk.violation(cell, what, None)
                 continue
-            ns_ = "pre:" if kind == "pre" else ""
+            ns_ = NS_OF.get(kind, "")
             small = shrink(runner, spec, hist, cell, ns_) if "harness-exception" not in cell else hist
             chk.violation(cell, what, {"class": spec.cls, "history": hist_json(small), "seed": chk.seed, "tier": chk.tier, "ns": ns_})
     env.close()
@@ -1518,6 +1609,7 @@ def run(chk):
                     break
                 chk.traces_validated += 1
                 chk.count("wrapper-model-steps-agree")
+                chk.count("wrapper-model-steps-agree:" + hists[hid][0].cls)
 
 
 def replay(chk, payload):
